@@ -1,7 +1,10 @@
+mod c05;
 mod child;
 mod doc;
 mod exec;
+mod framework;
 mod rules;
+mod workload;
 mod prng;
 mod proto;
 mod seams;
@@ -130,14 +133,42 @@ fn main() {
         child::child_main(&args[2]);
     }
     let noaslr = ensure_no_aslr();
+    let checks: Vec<&dyn framework::Check> = vec![&c05::C05];
+    let flag = |name: &str| -> Option<String> { args.iter().position(|a| a == name).and_then(|i| args.get(i + 1).cloned()) };
+    let verif = std::path::PathBuf::from(flag("--verif").unwrap_or_else(|| "/verif".into()));
     match args.get(1).map(|s| s.as_str()) {
         Some("probe") => probe(args.get(2).and_then(|s| s.parse().ok()).unwrap_or(500), args.get(3).and_then(|s| s.parse().ok()).unwrap_or(1)),
         Some("smoke") => {
             println!("noaslr={noaslr}");
             smoke()
         }
+        Some("run") => {
+            let id = args.get(2).cloned().unwrap_or_default();
+            let check = match checks.iter().find(|c| c.id() == id) {
+                Some(c) => *c,
+                None => {
+                    eprintln!("guardsim: unknown property {id}");
+                    std::process::exit(2);
+                }
+            };
+            let tier = match flag("--tier").or_else(|| std::env::var("VERIF_TIER").ok()).as_deref() {
+                Some("thorough") => framework::Tier::Thorough,
+                _ => framework::Tier::Quick,
+            };
+            let seed = flag("--seed").or_else(|| std::env::var("VERIF_SEED").ok()).and_then(|s| s.parse::<u64>().ok()).unwrap_or(framework::DEFAULT_SEED);
+            let workers = flag("--workers").and_then(|s| s.parse().ok()).unwrap_or_else(|| std::thread::available_parallelism().map(|n| n.get()).unwrap_or(4));
+            let cfg = framework::RunCfg { verif, tier, seed, workers, scenarios: flag("--scenarios").and_then(|s| s.parse().ok()), write_evidence: !args.iter().any(|a| a == "--no-evidence") };
+            if !noaslr {
+                eprintln!("guardsim: note: could not disable ASLR; heap addresses are perturbed but not replay-exact");
+            }
+            std::process::exit(framework::run_check(check, &cfg));
+        }
+        Some("replay") => {
+            let file = args.get(2).cloned().unwrap_or_default();
+            std::process::exit(framework::run_replay(&checks, std::path::Path::new(&file)));
+        }
         _ => {
-            eprintln!("usage: guardsim <check> ...");
+            eprintln!("usage: guardsim run <ID> [--tier quick|thorough] [--seed N] [--workers W] [--scenarios K] | replay <file> | selftest");
             std::process::exit(2);
         }
     }
